@@ -29,7 +29,7 @@ ASSUMPTIONS = [
     "objects are picklable by construction (classes importable from vlib.userclasses)",
 ]
 SHARDS = {"quick": 12, "thorough": 14}
-FLOORS = {"quick": {"huge_run_payloads": 3, "round_trips": 2500, "renamed_loads": 1500, "aliased_objects": 100, "big_payloads": 40, "dumps_over_older_longer_content": 500, "loads_from_a_file_positioned_after_a_header": 250, "objects_with_a_magic_number_inside_their_pickle": 30},
+FLOORS = {"quick": {"loads_in_which_a_read_came_back_short": 12, "huge_run_payloads": 3, "round_trips": 2500, "renamed_loads": 1500, "aliased_objects": 100, "big_payloads": 40, "dumps_over_older_longer_content": 500, "loads_from_a_file_positioned_after_a_header": 250, "objects_with_a_magic_number_inside_their_pickle": 30},
           "thorough": {"huge_run_payloads": 60, "round_trips": 50000, "renamed_loads": 30000, "aliased_objects": 2000, "big_payloads": 800, "dumps_over_older_longer_content": 10000, "loads_from_a_file_positioned_after_a_header": 5000, "objects_with_a_magic_number_inside_their_pickle": 600}}
 
 EXTS = ["", ".pkl", ".z", ".gz", ".bz2", ".xz", ".lzma"]
@@ -117,11 +117,56 @@ def gen_object(rng, tier):
     return spec, "plain"
 
 
+class ShortReads:
+    """a raw stream (pipe, socket, FUSE / network file, user wrapper): read(n) may return fewer than n bytes before the end"""
+
+    def __init__(self, raw, cap):
+        self.b, self.cap, self.short = io.BytesIO(raw), cap, 0
+        self.closed = False
+
+    def read(self, n=-1):
+        if n is None or n < 0:
+            return self.b.read()
+        data = self.b.read(min(n, self.cap))
+        if len(data) < n and self.b.tell() < len(self.b.getbuffer()):
+            self.short += 1
+        return data
+
+    def readinto(self, buf):
+        data = self.read(len(buf))
+        buf[:len(data)] = data
+        return len(data)
+
+    def readline(self):
+        return self.b.readline()
+
+    def seek(self, *a):
+        return self.b.seek(*a)
+
+    def tell(self):
+        return self.b.tell()
+
+    def readable(self):
+        return True
+
+    def seekable(self):
+        return True
+
+    def writable(self):
+        return False
+
+    def close(self):
+        self.closed = True
+
+
 def with_arrays(obj, rng):
     import numpy as np
     arrs = [np.arange(12, dtype=rng.choice(["<i4", "<f8", "<i2", "u1"])).reshape(3, 4),
             np.array([1.5, 2.5]), np.asfortranarray(np.arange(6.0).reshape(2, 3)),
             np.array(["a", "bc"], dtype=object)]
+    if rng.random() < 0.5:
+        # an array whose data is larger than what one read() of a raw stream returns
+        arrs = [np.arange(rng.choice([20000, 40000]), dtype="<f8"), np.arange(70000, dtype="<i4").reshape(7, 10000)]
     a = rng.choice(arrs)
     return {"obj": obj, "arr": a, "again": [a, obj if isinstance(obj, (list, dict)) else None]}
 
@@ -160,6 +205,12 @@ def run_case(case, ctx):
             load_from = rng.choice(["path", "file", "bytesio"]) if target in ("path", "Path", "file") else "bytesio"
             if target == "write-only-sink":
                 load_from = "bytesio"
+            if klass in ("plain+arrays", "aliased+arrays") and target in ("path", "Path", "file", "bytesio") and rng.random() < 0.6:
+                # (only for small pickles with array data next to them: the standard unpickler itself wants complete reads for its
+                # own items, all far below the 64 KiB a read returns here)
+                load_from = "short-reads"
+                if rng.random() < 0.6:
+                    compress = rng.choice([0, False])     # (a decompressor in between asks for 8 KiB at a time: no read comes back short)
             if target.startswith("reused") or target == "file-after-header":
                 load_from = "same-object"
             desc = dict(object=can[:300], klass=klass, compress=compress, protocol=protocol, target=target, ext=ext, load_from=load_from)
@@ -270,6 +321,12 @@ def run_case(case, ctx):
                     elif load_from == "file":
                         with open(path, "rb") as f:
                             back = joblib.load(f)
+                    elif load_from == "short-reads":
+                        sr = ShortReads(raw, 65536)
+                        back = joblib.load(sr)
+                        ctx.count("loads_from_a_raw_stream_with_short_reads")
+                        if sr.short:
+                            ctx.count("loads_in_which_a_read_came_back_short")
                     else:
                         back = joblib.load(io.BytesIO(raw))
                 diff = gen_obj.iso(obj, back)
